@@ -305,7 +305,7 @@ claim("C17", "other",
       "Lean 4 proof over a generic model + kernel-checked classification of a regenerated inventory (translator) + real multi-instance runs vs solo",
       "lean-translator")
 
-claim_pending("C04", "other",
+claim("C04", "other",
       "Protocol theorems, for every size, thread count and interleaving: dag_confluence / dag_equals_sequential / dag_progress for arbitrary task DAGs whose bodies "
       "read only completed ancestors; instantiated for EncDec segments through the C24 model (encdec_guard_enforced, encdec_confluence, encdec_terminates) and for the "
       "dependency-free segment grids (independent_grid_confluence, last_one_fires_once); handshake_no_lost_wakeup for the cond-var protocol (8-pc transition "
@@ -315,11 +315,13 @@ claim_pending("C04", "other",
       "property's oracle: each configuration of the REAL encoder is run at logical_processors=1 and under K seeded schedule perturbations (quick K=4, thorough "
       "K=24) and packets + recon are byte-compared.",
       AX + "; H-footprint is NOT proved: determinism of the real encoder is sampled; sequentially consistent atomic steps; the Wavefront/CondVar/Counter/Kahn models "
-      "are abstract and tied to the code only through C23/C24 and the sweep; recorded findings: rate control is schedule-dependent; a rare CQP nondeterminism.",
+      "are abstract and tied to the code only through C23/C24 and the sweep; the main sweep runs with enable_tpl_la=0 and CQP; TPL-on and rate-control "
+      "configurations are labelled families whose differences are classified by a differential test (does the setting differ from itself? does the difference vanish "
+      "with the knob off?) and reported as the two recorded findings: a race in the TPL look-ahead path at >= 2 logical processors, and schedule-dependent rate control.",
       "Lean 4 protocol proofs for all interleavings + differential execution of the real encoder under seeded schedule perturbation and thread-count change",
       "lean-correspondence")
 
-claim_pending("C27", "other",
+claim("C27", "other",
       "From the SRM model (C23): nonblocking_never_blocks, nonblocking_token_stable, nonblocking_returns_iff_available, idempotent_registration; from the Kahn "
       "network model: output_indep_of_polling under the NAMED hypothesis H-kahn (no library code branches on emptiness of an application-facing queue or on time), "
       "with hkahn_needed as counterexample; hkahn_syntactic: a table of the callers of the non-blocking getters and of every clock read in the encoder library "
@@ -328,7 +330,8 @@ claim_pending("C27", "other",
       "after every send / every k / only at end / random polling with delays; recon on/off; blocking vs non-blocking final drain) - drain-after-each-send must "
       "complete, completing patterns must be byte-identical.",
       AX + "; H-kahn is a hypothesis; progress with the real bounded pools is NOT proved; regex scanner + reviewed allow-list; CQP and speed_control_flag=0 only; "
-      "recorded findings: blocking final get_packet deadlocks against the recon pool (genuine), a rare output difference.",
+      "the main sweep runs with enable_tpl_la=0; recorded findings: the blocking final get_packet deadlocks against the recon pool (genuine), and the TPL nondeterminism "
+      "family seen through the call-pattern sweep.",
       "Lean 4 proofs + syntactic H-kahn table regenerated from the source + call-pattern sweep on the real encoder",
       "lean-correspondence")
 
@@ -347,7 +350,21 @@ claim("C20", "other",
       "Lean 4 proof over a hand-written model + real-encoder oracle (Lean header parser, instrumented real decoder)",
       "lean-correspondence")
 
+claim("C11", "other",
+      "Proved in Lean for all sizes: padding arithmetic of set_param_based_on_input for every size the translated validator accepts (pad_spec, pad_least, "
+      "accepted_cfg_size); the recon output buffer fits the three planes recon_output writes, with no 32-bit intermediate wrap (recon_sizes_fit, "
+      "recon_copy_within_increment); the per-picture bitstream buffers are two constants, both copies into them are unchecked and overflow exactly when the coded size "
+      "exceeds them, and the raw picture already exceeds them for accepted configurations (bitbuf_not_bounded, stop_encode_unchecked, append_tiles_in_bounds_iff; real "
+      "replay 1280x720 10-bit noise qp 0 -> heap overflow); copy_api_from_app writes out of bounds for some accepted configurations (re-export of C12); liveness pieces "
+      "re-exported from C24/C23/C03. Memory safety / UB / termination of the encoder AS A WHOLE is NOT proved: it is exercised on a fixed matrix of 12 (thorough 32x2) "
+      "accepted configurations under ASan + recoverable UBSan with watchdogs; the 27 defect sites it meets are recorded findings and anything else is a VIOLATION.",
+      AX + "; models are hand transcriptions tied by harness/c11_units.c (real functions + extracted statement text over every accepted width and height); "
+      "recon_ptr->max_width = padded width is read off the code; UBSan alignment check off and recoverable; arithmetic-UB sites outside the listed functions fall under "
+      "one family key; configuration families that hang or crash for other recorded reasons (C03 findings) are kept out of the matrix; decode=0 (decoder is C10's).",
+      "Lean 4 proof over hand-written models + real-code unit correspondence + ASan/UBSan implementation oracle on a fixed matrix",
+      "lean-correspondence")
+
 _PENDING = ("check under construction (model planned in DESIGN.md section 5); not claimed until its theorem and correspondence run exist "
             "and pass on the unchanged tree")
-for _p in ["C01", "C08", "C09", "C11"]:
+for _p in ["C01", "C08", "C09"]:
     NOT_CLAIMED[_p] = _PENDING
